@@ -45,11 +45,18 @@ def _repo() -> str:
     return os.environ.get('PAGEXML_REPO', '/repo')
 
 
+_PARSED: Dict[Any, ast.Module] = {}
+
+
 def _module(rel: str) -> ast.Module:
     path = os.path.join(_repo(), rel)
-    with open(path, encoding='utf-8') as fh:
-        from harness.astnorm import normalise     # named constants / folded literals read as the literals they are
-        return normalise(ast.parse(fh.read(), filename=path))
+    st = os.stat(path)
+    key = (path, st.st_mtime_ns, st.st_size)
+    if key not in _PARSED:
+        with open(path, encoding='utf-8') as fh:
+            from harness.astnorm import normalise     # named constants / folded literals read as the literals they are
+            _PARSED[key] = normalise(ast.parse(fh.read(), filename=path))
+    return _PARSED[key]
 
 
 def _fail(node: Optional[ast.AST], why: str):
